@@ -167,7 +167,7 @@ func CacheKeyShape(p *core.Program, r *core.Report, rule string) {
 				return true
 			}
 			fn := core.Callee(info, c)
-			if fn == nil || fn.Pkg() == nil || fn.Pkg().Path() != "strings" || fn.Name() != "Join" {
+			if fn == nil || fn.Pkg() == nil || fn.Pkg().Path() != "strings" || core.RefName(fn) != "Join" {
 				return true
 			}
 			cl, isCl := ast.Unparen(c.Args[0]).(*ast.CompositeLit)
@@ -179,7 +179,7 @@ func CacheKeyShape(p *core.Program, r *core.Report, rule string) {
 				parts = append(parts, originOfKeyPart(kf, el, okf.Obj))
 			}
 			got = strings.Join(parts, ",")
-			want := fmt.Sprintf("owner(%s),owner(%s),%s,%s", sig.Params().At(0).Name(), sig.Params().At(1).Name(), sig.Params().At(2).Name(), sig.Params().At(3).Name())
+			want := fmt.Sprintf("owner(%s),owner(%s),%s,%s", core.RefName(sig.Params().At(0)), core.RefName(sig.Params().At(1)), core.RefName(sig.Params().At(2)), core.RefName(sig.Params().At(3)))
 			if got == want {
 				ok = true
 			}
@@ -191,7 +191,7 @@ func CacheKeyShape(p *core.Program, r *core.Report, rule string) {
 		var join *ast.CallExpr
 		ast.Inspect(kf.Decl.Body, func(n ast.Node) bool {
 			if c, isC := n.(*ast.CallExpr); isC {
-				if fn := core.Callee(info, c); fn != nil && fn.Pkg() != nil && fn.Pkg().Path() == "strings" && fn.Name() == "Join" {
+				if fn := core.Callee(info, c); fn != nil && fn.Pkg() != nil && fn.Pkg().Path() == "strings" && core.RefName(fn) == "Join" {
 					join = c
 				}
 			}
@@ -207,7 +207,7 @@ func CacheKeyShape(p *core.Program, r *core.Report, rule string) {
 				for _, a := range facts.Atoms(fm) {
 					st := facts.StripVersions(a)
 					for i := 0; i < 2; i++ {
-						pn := sig.Params().At(i).Name()
+						pn := core.RefName(sig.Params().At(i))
 						if strings.HasPrefix(st, "eq:"+pn+".") && strings.HasSuffix(st, ".Owner.Name==\"\"") && facts.Entails(fm, facts.Not{X: facts.Atom(a)}) {
 							hasOwner[pn] = true
 						}
@@ -225,7 +225,7 @@ func CacheKeyShape(p *core.Program, r *core.Report, rule string) {
 		ast.Inspect(okf.Decl.Body, func(n ast.Node) bool {
 			if se, ok := n.(*ast.SelectorExpr); ok {
 				if f := core.FieldOf(info, se); f != nil {
-					reads[f.Name()] = true
+					reads[core.RefName(f)] = true
 				}
 			}
 			return true
@@ -292,7 +292,7 @@ func CacheKeyShape(p *core.Program, r *core.Report, rule string) {
 				if fn == nil || fn.Pkg() == nil {
 					return true
 				}
-				full := fn.Pkg().Path() + "." + fn.Name()
+				full := fn.Pkg().Path() + "." + core.RefName(fn)
 				switch full {
 				case "fmt.Sprintf", "fmt.Sprint", "fmt.Sprintln", "encoding/json.Marshal", "fmt.Fprint", "fmt.Fprintf":
 					for _, a := range x.Args {
@@ -302,7 +302,7 @@ func CacheKeyShape(p *core.Program, r *core.Report, rule string) {
 					}
 				}
 				// pieces written one by one: Write / WriteString / io.WriteString
-				if fn.Name() == "Write" || fn.Name() == "WriteString" {
+				if core.RefName(fn) == "Write" || core.RefName(fn) == "WriteString" {
 					for _, a := range x.Args {
 						a = ast.Unparen(a)
 						if c, ok := a.(*ast.CallExpr); ok && core.IsConversion(info, c) && len(c.Args) == 1 {
